@@ -25,6 +25,7 @@ func c18Layouts(tier string) []c18Layout {
 			CookiePrefix: prefix, Redis: redis, Abs: abs, Idle: idle}
 	}
 	pw := func(x world.FilterSpec) world.FilterSpec { x.RedisPassword = "p4ss-w0rd"; return x }
+	cn := func(x world.FilterSpec, name string) world.FilterSpec { x.ChainName = name; return x }
 	ls := []c18Layout{
 		{"memory shared, same cookie name", []world.FilterSpec{f("a", "", "", 0, 0), f("b", "", "", 0, 0)}},
 		{"memory shared, distinct prefixes", []world.FilterSpec{f("a", "pa", "", 0, 0), f("b", "pb", "", 0, 0)}},
@@ -33,6 +34,7 @@ func c18Layouts(tier string) []c18Layout {
 		{"two redis servers, distinct prefixes", []world.FilterSpec{f("a", "pa", "r1", 3600, 0), f("b", "pb", "r2", 100, 0)}},
 		{"one redis server, two databases", []world.FilterSpec{f("a", "pa", "r1/0", 3600, 0), f("b", "pb", "r1/1", 100, 50)}},
 		{"memory + password-protected redis", []world.FilterSpec{f("a", "pa", "", 0, 0), pw(f("b", "pb", "r1", 100, 50))}},
+		{"two redis servers, chains with the same name", []world.FilterSpec{cn(f("a", "pa", "r1", 3600, 0), "tenant"), cn(f("b", "pb", "r2", 100, 0), "tenant")}},
 	}
 	d := func(name, prefix string) world.FilterSpec {
 		x := f(name, prefix, "", 0, 0)
